@@ -110,7 +110,7 @@ class P(Property):
             '0..10 entries, long entries overflowing the 64-byte header). st.dec: SETTINGS payloads from the grammar (known, reserved, '
             'grease, unknown ids; every varint form; permutations; duplicates), every truncation of them, all payloads of 0..2 bytes, '
             'seeded random bytes, each under a random length form, with trailing bytes, handed over as a non-contiguous Buf (0..3 random cuts for every payload; every single cut and every pair of cuts for the hand-written payloads, their truncations and a sample of the generated ones). rx: the same payloads '
-            'delivered on the peer control stream of a real client/server connection (whole and byte-by-byte). '
+            'delivered on the peer control stream of a real client/server connection (both roles, receiver configuration drawn from the cfg quantifier; whole and in 1/2/5-byte chunks; optionally followed by a second SETTINGS frame; in 60% of the cases the control stream is opened after 1..3 other uni streams that stay silent: incomplete type varint, unknown/grease type, QPACK encoder/decoder, WebTransport type without its session id, no bytes at all). '
             'non-trivial = cfg: all; st.ins: at least one insert; st.dec/rx: the payload holds at least one complete entry')
 
     # ---- generators
@@ -306,11 +306,17 @@ class P(Property):
                 rxs.append(p[:t])
         rxs += structured[len(hand) * 2::(12 if tier == 'quick' else 3)] + longs[::(4 if tier == 'quick' else 1)]
         quants = {r: [x for x in self.quantifier(r) if x[1] < V62 and x[5] < V62] for r in 'cs'}
+        PRES = ['40', 'c0', '80', '54', '21', '2100ff', '02', '03', '0', '4021', '8000']
         def rx_case(role, p, tail, chunk):
             n = len(p)
+            # other uni streams opened before the control stream (each QPACK stream at most once); none in 40% of the cases
+            pre = '-'
+            if rng.random() < 0.6:
+                items = rng.sample(PRES, rng.randint(1, 3))
+                pre = ','.join(items)
             form = rng.choice([0] + [l for l in (1, 2, 4, 8) if n < 2 ** (8 * l - 2)])
             calls = self.calls_for(rng, role, *rng.choice(quants[role]))
-            return 'rx %s %s %d %s %s %d' % (role, calls, form, p.hex() or '-', tail.hex() or '-', chunk)
+            return 'rx %s %s %d %s %s %d %s' % (role, calls, form, p.hex() or '-', tail.hex() or '-', chunk, pre)
         for p in rxs:
             for role in 'cs':
                 out.append(rx_case(role, p, b'', rng.choice([0, 0, 1, 2, 5]) if len(p) < 2000 else rng.choice([0, 1000])))
